@@ -2582,7 +2582,7 @@ def view_validation(repo, tier):
     root = os.path.dirname(os.path.dirname(os.path.abspath(__file__)))
     try:
         p = subprocess.run(["/venv/bin/python", os.path.join(root, "replay", "run.py")], input=json.dumps({"property": "C08", "validate_views": True, "repo": repo}),
-                           capture_output=True, text=True, timeout=300, env=dict(os.environ, VERIF_REPO=repo))
+                           capture_output=True, text=True, timeout=1800, env=dict(os.environ, VERIF_REPO=repo))      # (guards a hang only; load-independent verdict)
         facts = json.loads([l for l in p.stdout.splitlines() if l.startswith("{")][-1]).get("facts", [])
     except Exception as e:  # noqa
         facts = [{"fact": "validator-ran", "ok": False, "detail": str(e)[:200]}]
@@ -2610,7 +2610,7 @@ def native_sweep(repo, tier):
     oid = "C08/native::sweep/bounded#encrypted-rejected-before-any-result-and-plain-never-rejected"
     try:
         p = subprocess.run(["/venv/bin/python", os.path.join(root, "replay", "run.py")], input=json.dumps({"property": "C08", "obligation": oid, "repo": repo}),
-                           capture_output=True, text=True, timeout=900, env=dict(os.environ, VERIF_REPO=repo))
+                           capture_output=True, text=True, timeout=2400, env=dict(os.environ, VERIF_REPO=repo))
         res = json.loads([l for l in p.stdout.splitlines() if l.startswith("{")][-1])
     except Exception as e:  # noqa
         res = {"reproduced": False, "note": "sweep did not run: " + str(e)[:200], "failed_to_run": True}
